@@ -61,6 +61,8 @@ def instances(tier):
         out.append({"kind": "script", "gen": g, "depth": 2 if tier == "quick" else 3, "alphabet": "turns", "turns": 10})
         # a long outage: many refusals in a row; the time to recover once the console accepts again does not grow with them
         out.append({"kind": "outage", "gen": g, "refusals": 30 if tier == "quick" else 120})
+        # a console that is slow to accept (up to 20 s): the client waits for it; one connection, none abandoned open
+        out.append({"kind": "slow_accept", "gen": g})
     return out
 
 
@@ -134,7 +136,43 @@ def _b(x):
     return bool(x) if isinstance(x, SymBool) else x
 
 
+def _slow_accept(ctx, p):
+    g = Gen(p["gen"])
+    S = socket_mod()
+    cat = catalog.catalog(g)
+    status_entry, cmd_entry = cat[4], cat[3]
+    probe_frame = framing.frame(g.n, 0xB0, 0x80, 8, status_entry[2], status_entry[3](2))
+    lat = ctx.real("lat", 0, 20, lo_strict=True)
+    with Rig(ctx, g, stub_reader=False) as rig:
+        rig.net.on_connect = lambda net, n: ("accept", lat)
+        rig.spawn(rig.sock.open_socket())
+        rig.loop.vt_run(70.0)
+        c = rig.net.current()
+        open_now = [x.index for x in rig.net.conns if not x.client_closed]
+        detail = {"conns": len(rig.net.conns), "still_open": open_now, "max_open": rig.net.max_open}
+        ctx.observe("conns", len(rig.net.conns))
+        ctx.check(rig.sock.is_connected and c is not None, "heals.connected", detail=detail)
+        ctx.check(rig.net.max_open <= 1, "single_connection", detail=detail)
+        ctx.check(len(open_now) <= 1 and (not open_now or open_now[0] == rig.net.conns[-1].index), "abandoned_closed", detail=detail)
+        if c is not None:
+            c.send(bytes(probe_frame))
+
+        async def user_send():
+            try:
+                await rig.sock.send(cmd_entry[1](6), S.RetryPolicy(0, 10.0))
+            except (S.QueueOverflowError, S.NotOpenError):
+                pass
+
+        rig.spawn(user_send())
+        rig.loop.vt_run(75.0)
+        ctx.check(len(rig.received) == 1, "heals.receiving", detail=detail)
+        ctx.check(sum(len(x.writes) for x in rig.net.conns) > 0, "heals.transmitting", detail=detail)
+        ctx.check(not rig.task_failures(), "no_task_crash", detail=detail)
+
+
 def run(ctx, p):
+    if p["kind"] == "slow_accept":
+        return _slow_accept(ctx, p)
     if p["kind"] == "outage":
         return _outage(ctx, p)
     g = Gen(p["gen"])
